@@ -208,6 +208,7 @@ func bizToken(e memdb.Entry, table string) string {
 
 func runC02(c *Ctx) {
 	w := GetATWorld()
+	runC02Followup(c, w)
 	w.DB.SetMaxOpenConns(1)
 	w.DB.SetMaxIdleConns(1)
 	rng := NewRng(c.Seed)
